@@ -351,9 +351,7 @@ class MQTTProtocol(MQTTBaseProtocol):
         '''
         Called when a CONNACK has been received (publisher only).
         '''
-        if self._cleanStart:
-            self._purgeSession(MQTTSessionCleared())
-        else:
+        if not self._cleanStart:
             self._syncSession()
         if self.onMqttConnectionMade:
             self.onMqttConnectionMade()
@@ -361,6 +359,20 @@ class MQTTProtocol(MQTTBaseProtocol):
     # ---------------------------
     # State Machine API callbacks
     # ---------------------------
+
+    def doConnect(self, request):
+        '''
+        Performs the actual work of connecting.
+        A clean session discards what previous connections left behind
+        as soon as CONNECT is sent, so that messages published on this 
+        connection before its CONNACK arrives are not discarded with it.
+        '''
+        d = MQTTBaseProtocol.doConnect(self, request)
+        if self.state is self.CONNECTING and self._cleanStart:
+            self._purgeSession(MQTTSessionCleared())
+        return d
+
+    # --------------------------------------------------------------------------
 
     def doSubscribe(self, request):
         '''
